@@ -42,6 +42,9 @@ type config struct {
 	NoCmds              bool `json:"no_cmds"`      // Params.Cmds nil
 	Panic               bool `json:"panic_style_t"`
 	Verbose             bool `json:"verbose"`
+	// RequireUniqueNames: Params.RequireUniqueNames (only used by scripts with
+	// hand-stated expectations; the reference interpreter's archive has unique names)
+	RequireUniqueNames bool `json:"require_unique_names,omitempty"`
 }
 
 type refState struct {
